@@ -63,6 +63,7 @@ type Report struct {
 	Executions     int64          `json:"executions"`
 	DupExecutions  int64          `json:"dup_executions"` // executions above the shard level, run by every shard
 	Transitions    int64          `json:"transitions"`
+	Evaluations    int64          `json:"evaluations"` // inputs enumerated inside executions (vrt.AddEvaluations)
 	States         int            `json:"states"`
 	Outcomes       int            `json:"distinct_outcomes"`
 	OutcomeHashes  []uint64       `json:"outcome_hashes,omitempty"`
@@ -119,6 +120,7 @@ func (e *explorer) check(x *Exec, res *Result, choices []int32, devs int, counte
 	if counted {
 		e.rep.Executions++
 		e.rep.Transitions += int64(x.steps)
+		e.rep.Evaluations += x.evals
 	} else {
 		e.rep.DupExecutions++
 	}
@@ -321,8 +323,17 @@ func (e *explorer) top() {
 		if ran+len(next) > budget {
 			// largest subtrees (fewest deviations spent) first
 			sort.SliceStable(next, func(i, j int) bool { return next[i].devs < next[j].devs })
+			// units are claimed in batches (about 64 batches per shard)
+			batch := len(next) / (e.nshards * 64)
+			if batch < 1 {
+				batch = 1
+			}
+			mine := false
 			for idx, k := range next {
-				if !e.claim(idx, k) {
+				if idx%batch == 0 {
+					mine = e.claim(idx/batch, k)
+				}
+				if !mine {
 					continue
 				}
 				e.dfs(k)
@@ -399,19 +410,8 @@ func WorkerMain() int {
 		e := &explorer{sc: sc, bound: b, shard: shard, nshards: nshards, level: envInt("VRT_LEVEL", 1), deadline: dl,
 			maxExec: int64(envInt("VRT_MAXEXEC", 0)), rep: rep, states: states, outcomes: outcomes, vio: vio,
 			vioOutcome: map[uint64]struct{}{}, claimDir: os.Getenv("VRT_CLAIM_DIR")}
-		if b == 0 || nshards == 1 {
-			e.level = 0
-			if b == 0 && shard != 0 {
-				// bound 0 is tiny: shard 0 does it alone
-				rep.CompletedBound = 0
-				continue
-			}
-			if nshards > 1 {
-				e.nshards, e.shard = 1, 0
-			}
-		}
 		// counters describe the last (deepest) pass; lower bounds are re-covered by it
-		rep.Executions, rep.Transitions, rep.DupExecutions = 0, 0, 0
+		rep.Executions, rep.Transitions, rep.DupExecutions, rep.Evaluations = 0, 0, 0, 0
 		rep.Status = map[string]int{}
 		e.top()
 		if rep.EngineError != "" || !rep.Complete {
